@@ -23,6 +23,12 @@ CLAIMED = {
          "static analysis: units-of-measure dataflow (epoch vs version) + sibling/ordering rules on MIR (RF-UNIT, RF-SIB, RF-ORDER, RF-BIND)"),
  'C16': ("Static rule checking of cache discipline: cache fills of written records are dominated by the success edge of the database write, every database-writing API caches the same records and nothing else writes the database, read paths cache exactly the database result after consulting the transaction log, flush clears every record-holding field, cache/manager/transaction state is module-private, cleaning only removes entries. Timing-dependent behaviour and concurrent tasks are not decided.",
          "static analysis: dominance (RF-ORDER), sibling agreement, effect sets and field visibility on MIR/ADT facts (RF-SIB, RF-EFFECT, RF-OWN, RF-COVER)"),
+ 'C10': ("Static rule checking of the failure-atomicity mechanism of publish: the transaction bracket (every exit after a successful begin passes commit or rollback; the in-transaction `?` discharged by a checked summary of StorageManager::batch_set), all storage writes inside the bracket, cache filled only after the database write succeeded, every spawned writer task joined on every exit, and no discarded storage/VRF Result on the publish path. Behaviour under partial database writes is not decided.",
+         "static analysis: bracket / dominance / fork-join rules on the MIR CFG, call-graph effects, error-use dataflow (RF-ORDER, RF-JOIN, RF-EFFECT, RF-ERR)"),
+ 'C12': ("Static rule checking of the lock discipline: an exclusion region (named Mutex/RwLock-write guard shared by clones, or the transaction flag) is acquired before the epoch-record and user-version reads of publish and is not released before the durable write; the flag is one atomic swap whose result is branched on; the transaction bracket is closed on every exit. Serializability of all interleavings is not decided.",
+         "static analysis: lock-region dominance and guard-liveness on the MIR CFG (RF-ORDER, RF-BIND)"),
+ 'C13': ("Static rule checking: each read request fetches the epoch record exactly once along every call-graph path and generates all proofs and the returned EpochHash from that snapshot; as-of-epoch node selection is checked; the change poller flushes and re-fetches under the write lock before notifying and compares an uncached read; flush clears all record-holding state; request paths reach no storage write and drop no Result; the read-only wrapper forwards unchanged. Real interleavings are not executed.",
+         "static analysis: call-graph snapshot provenance, dominance chains, effect sets (RF-SNAP, RF-ORDER, RF-EFFECT, RF-ERR, RF-SIB)"),
 }
 NA = {
  'C08': "the property is arithmetic over runtime values (two marker-version sets computed by bit manipulation always intersect); no shape-of-the-code rule decides it, and the structural part (verifiers enforce the full marker lists) is already decided under C06/C07",
